@@ -2,6 +2,7 @@ from spec import H, KaniUnit, Property, VerusUnit
 
 CV = "mithril-common/src/certificate_chain/certificate_verifier.rs"
 EP = "mithril-common/src/entities/epoch.rs"
+CC = "mithril-client/src/certificate_client/verify.rs"
 PROP = Property(
     "C03", "proof",
     kani=[KaniUnit(
@@ -24,8 +25,18 @@ PROP = Property(
          "MithrilCertificateVerifier::verify_signed_message_matches_hashed_protocol_message", "MithrilCertificateVerifier::verify_protocol_parameters_chaining",
          "MithrilCertificateVerifier::verify_concatenation_aggregate_verification_key_chaining", "MithrilCertificateVerifier::verify_aggregate_verification_key_chaining",
          "MithrilCertificateVerifier::verify_standard_certificate_integrity", "MithrilCertificateVerifier::verify_genesis_certificate",
-         "MithrilCertificateVerifier::verify_standard_certificate", "MithrilCertificateVerifier::verify_certificate", "CertificateVerifier::verify_certificate_chain (default method)"])],
-    replays=[dict(crate="mithril-common", file=CV, module="replays/c03_verifier.rs")],
+         "MithrilCertificateVerifier::verify_standard_certificate", "MithrilCertificateVerifier::verify_certificate", "CertificateVerifier::verify_certificate_chain (default method)"]),
+        VerusUnit(
+        "client_verify_chain", "verus/C03/client_verify_chain.tmpl.rs",
+        "extracted real text of mithril-client's chain walk (certificate_client/verify.rs, default features): verify_without_cache Ok ==> the common verifier accepted this certificate "
+        "(Ok(None) ==> as a chain root, Ok(Some(p)) ==> linked to p); verify_with_cache_enabled (no cache in default builds) Ok(None) ==> a chain root was accepted, "
+        "Ok(Some(_)) ==> the next certificate to verify is the verifier's answer; verify_chain Ok ==> the certificate handed in was itself verified AND the walk ended at a "
+        "certificate the common verifier accepted as a chain root (two loops with inductive invariants; partial correctness)",
+        ["mithril-client MithrilCertificateVerifier::verify_chain", "mithril-client MithrilCertificateVerifier::verify_with_cache_enabled",
+         "mithril-client MithrilCertificateVerifier::verify_without_cache", "mithril-client MithrilCertificateVerifier::fetch_cached_previous_hash (not(unstable))",
+         "mithril-client CertificateToVerify::hash"])],
+    replays=[dict(crate="mithril-common", file=CV, module="replays/c03_verifier.rs"),
+             dict(crate="mithril-client", file=CC, module="replays/c03_client.rs", features="rustls")],
     assumptions=[
         "SHA-256 / hex hashing of certificates, protocol messages and parameters: uninterpreted functions of the value (collision resistance assumed, not proved)",
         "multi-signature verification (ProtocolMultiSignature::verify = mithril-stm AggregateSignature::verify) is a callee contract here; its own contract is C01",
@@ -36,8 +47,11 @@ PROP = Property(
         "verify_multi_signature and fetch_previous_certificate likewise (logging / async retriever)",
         "extraction rewrites (complete list in the template): StdResult<T> -> Result<T, CertificateVerifierError>; Err(anyhow!(E)) -> Err(E); debug!(..) statements and .with_context(..) removed; async fn -> fn and .await removed; closure headers given types and ensures clauses; x.as_bytes() -> string_as_bytes(&x)",
         "'reaches genesis in finitely many steps' follows from the per-link contract plus acyclicity (hash covers previous_hash under SHA-256): assumed, not proved; the default verify_certificate_chain loop is verified for partial correctness only (Ok ==> the walk ended at a certificate that verify_certificate accepted as genesis; `while let` desugared to loop/break; termination explicitly not claimed: #[verifier::exec_allows_no_decreases_clause])",
+        "mithril-client unit: the optional certificate-verifier cache (cargo feature `unstable`, off by default) is stripped by the extraction - with it a certificate whose hash is in the "
+        "local cache is not re-verified (by design; entries are stored only after a successful verification) - that path is not under contract; feedback events and trace! logging are removed; "
+        "the common verifier behind `internal_verifier: Arc<dyn CertificateVerifier>` is the callee contract proved by unit verifier; TryFrom<CertificateMessage> for Certificate is an uninterpreted relation",
         "the future_snark feature (off in default builds) is not covered; AggregateSignatureType::certifies_full_certificate_chain is false for the concatenation type",
     ],
     explanation="The acceptance rule is verified modularly by Verus on the function text extracted from the working tree: each guard against its clause of the statement, each composite against the conjunction of its callees' contracts, so a dropped or weakened conjunct fails a named obligation.",
-    not_decided=["mithril-client's verify_chain cache logic (async, HTTP)", "termination / reaching genesis (needs hash acyclicity)"],
+    not_decided=["mithril-client's verifier cache (feature `unstable`) and HTTP retrieval", "termination / reaching genesis (needs hash acyclicity)"],
 )
